@@ -15,6 +15,9 @@ import Mathlib.Data.Int.ModEq
 namespace Ark.Lit
 open Ark Ark.Mont Ark.LitSpec
 
+-- decidable equality of compile-time outcomes (for the `decide +kernel` examples)
+deriving instance DecidableEq for CT
+
 /-! ## 1. little-endian digit strings -/
 
 /-- `Σ dᵢ·b^i` of a little-endian digit list -/
@@ -63,7 +66,7 @@ theorem leSum_lt (b : Nat) (_hb : 0 < b) (ds : List Nat) (h : ∀ d ∈ ds, d < 
     rw [Nat.mul_add] at this
     omega
 
-theorem leSum_ge (b : Nat) (hb : 0 < b) (ds : List Nat)
+theorem leSum_ge (b : Nat) (_hb : 0 < b) (ds : List Nat)
     (h : ∀ d, ds.getLast? = some d → d ≠ 0) (hne : ds ≠ []) :
     b ^ (ds.length - 1) ≤ leSum b ds := by
   induction ds with
@@ -154,7 +157,7 @@ theorem chunks_lt (b k : Nat) (hb : 0 < b) (fuel : Nat) (ds : List Nat)
   | succ f ih =>
     by_cases he : ds.isEmpty = true
     · simp [chunks, he]
-    · simp only [chunks, he, if_false, List.map_cons]
+    · simp only [chunks, he]
       intro l hl
       rcases List.mem_cons.mp hl with rfl | hl
       · have h1 := leSum_lt b hb (ds.take k) (fun d hd => h d (List.mem_of_mem_take hd))
@@ -272,7 +275,7 @@ theorem hexLimbs_bounds (n : Nat) (hn : n ≠ 0) :
 theorem bitLength_eq_bitLen (n : Nat) : bitLength n = bitLen n := rfl
 
 /-- `⌈bitLength n / 64⌉ = L` whenever `B^(L-1) ≤ n < B^L`, `n ≠ 0` -/
-theorem ceil_bitLength (n L : Nat) (hn : n ≠ 0) (h1 : B ^ (L - 1) ≤ n) (h2 : n < B ^ L) :
+theorem ceil_bitLength (n L : Nat) (_hn : n ≠ 0) (h1 : B ^ (L - 1) ≤ n) (h2 : n < B ^ L) :
     (bitLength n + 63) / 64 = L := by
   rw [bitLength_eq_bitLen]
   have a1 : bitLen n ≤ 64 * L := by rw [bitLen_le_iff, ← B_pow_eq]; exact h2
@@ -1359,5 +1362,446 @@ theorem montFp_fpFromStr (fl : Bool) (N p : Nat) (hN : 0 < N) (hodd : p % 2 = 1)
     exact_mod_cast this
   · rw [montFp_panic_big _ (by rw [hn]; exact hN) s k hl (by rw [hn]; omega)] at hm
     cases hm
+
+/-! ## 8. `#[derive(MontConfig)]` -/
+
+theorem limbLoop_spec (m : Nat) (fuel i : Nat) (hm : m ≤ B ^ (i + fuel)) :
+    i ≤ limbLoop m fuel (B ^ i) i ∧ m ≤ B ^ (limbLoop m fuel (B ^ i) i) ∧
+    (limbLoop m fuel (B ^ i) i = i ∨ B ^ (limbLoop m fuel (B ^ i) i - 1) < m) := by
+  induction fuel generalizing i with
+  | zero => simp only [limbLoop]; exact ⟨Nat.le_refl _, by simpa using hm, Or.inl trivial⟩
+  | succ f ih =>
+    simp only [limbLoop]
+    by_cases h : B ^ i < m
+    · rw [if_pos h, ← pow_succ]
+      obtain ⟨a1, a2, a3⟩ := ih (i + 1) (by rw [show i + 1 + f = i + (f + 1) by omega]; exact hm)
+      refine ⟨by omega, a2, Or.inr ?_⟩
+      rcases a3 with a3 | a3
+      · rw [a3]; simpa using h
+      · exact a3
+    · rw [if_neg h]
+      exact ⟨Nat.le_refl _, by omega, Or.inl rfl⟩
+
+theorem B_gt_one : 1 < B := by unfold B; norm_num
+
+theorem macroLimbCount_spec (p : Nat) :
+    1 ≤ macroLimbCount p ∧ p ≤ B ^ macroLimbCount p ∧
+    (macroLimbCount p = 1 ∨ B ^ (macroLimbCount p - 1) < p) := by
+  have h : p ≤ B ^ (1 + p) := by
+    have h1 : p < B ^ p := Nat.lt_pow_self B_gt_one
+    have h2 : B ^ p ≤ B ^ (1 + p) := Nat.pow_le_pow_right B_pos (by omega)
+    omega
+  have := limbLoop_spec p p 1 h
+  rw [pow_one] at this
+  exact this
+
+/-- the derive macro's limb count is `⌈bits/64⌉` unless the modulus is a power of `2^64` -/
+theorem macroLimbCount_eq (p : Nat) (hp : 1 ≤ p) (hne : ∀ k, 1 ≤ k → p ≠ B ^ k) :
+    macroLimbCount p = (bitLength p + 63) / 64 := by
+  obtain ⟨h1, h2, h3⟩ := macroLimbCount_spec p
+  have hlt : p < B ^ macroLimbCount p := by
+    have := hne _ h1; omega
+  have hge : B ^ (macroLimbCount p - 1) ≤ p := by
+    rcases h3 with h3 | h3
+    · rw [h3]; simpa using hp
+    · omega
+  exact (ceil_bitLength p _ (by omega) hge hlt).symm
+
+/-- … and one limb too few when it is -/
+theorem macroLimbCount_pow (k : Nat) (hk : 1 ≤ k) : macroLimbCount (B ^ k) = k := by
+  obtain ⟨h1, h2, h3⟩ := macroLimbCount_spec (B ^ k)
+  have a : k ≤ macroLimbCount (B ^ k) := (Nat.pow_le_pow_iff_right B_gt_one).mp h2
+  rcases h3 with h3 | h3
+  · omega
+  · have := (Nat.pow_lt_pow_iff_right B_gt_one).mp h3
+    omega
+
+theorem bitLength_pow (k : Nat) : (bitLength (B ^ k) + 63) / 64 = k + 1 := by
+  apply ceil_bitLength
+  · exact Nat.ne_of_gt (Nat.pow_pos B_pos)
+  · simp
+  · exact Nat.pow_lt_pow_right B_gt_one (by omega)
+
+/-- the modulus limbs the macro emits -/
+theorem hexLimbs_eq (p : Nat) (hp : p ≠ 0) : hexLimbs p = toLimbs ((bitLength p + 63) / 64) p := by
+  have h := hexLimbs_eq_toLimbs p
+  rw [hexLimbs_length, if_neg hp] at h
+  exact h
+
+/-! ### trace -/
+
+theorem traceLoop_spec (fuel t : Nat) (ht : t ≠ 0) (hf : t < 2 ^ fuel) :
+    ∃ r s, traceLoop fuel t = some r ∧ r % 2 = 1 ∧ t = 2 ^ s * r := by
+  induction fuel generalizing t with
+  | zero => simp at hf; omega
+  | succ f ih =>
+    simp only [traceLoop]
+    by_cases h : t % 2 = 1
+    · exact ⟨t, 0, by simp [h], h, by simp⟩
+    · have h2 : t / 2 ≠ 0 := by omega
+      have h3 : t / 2 < 2 ^ f := by rw [pow_succ] at hf; omega
+      obtain ⟨r, s, e1, e2, e3⟩ := ih (t / 2) h2 h3
+      refine ⟨r, s + 1, by simp [h, e1], e2, ?_⟩
+      rw [pow_succ, Nat.mul_assoc, Nat.mul_comm 2 r, ← Nat.mul_assoc, ← e3]
+      omega
+
+theorem macroTrace_spec (p : Nat) (hp : 2 ≤ p) :
+    ∃ t s, macroTrace p = .ok t ∧ t % 2 = 1 ∧ p - 1 = 2 ^ s * t := by
+  have hf : p - 1 < 2 ^ (p + 1) := by
+    have : p + 1 < 2 ^ (p + 1) := Nat.lt_pow_self (by omega)
+    omega
+  obtain ⟨r, s, e1, e2, e3⟩ := traceLoop_spec (p + 1) (p - 1) (by omega) hf
+  refine ⟨r, s, ?_, e2, e3⟩
+  unfold macroTrace
+  rw [if_neg (by omega), e1]
+
+/-- odd part / 2-adic valuation are unique -/
+theorem two_pow_odd_unique (s s' r r' : Nat) (hr : r % 2 = 1) (hr' : r' % 2 = 1)
+    (h : 2 ^ s * r = 2 ^ s' * r') : s = s' ∧ r = r' := by
+  induction s generalizing s' with
+  | zero =>
+    cases s' with
+    | zero => simpa using h
+    | succ n =>
+      exfalso
+      rw [pow_succ] at h
+      simp only [pow_zero, Nat.one_mul] at h
+      have : r % 2 = 0 := by rw [h, Nat.mul_assoc, Nat.mul_comm (2 ^ n), Nat.mul_assoc]; simp
+      omega
+  | succ n ih =>
+    cases s' with
+    | zero =>
+      exfalso
+      rw [pow_succ] at h
+      simp only [pow_zero, Nat.one_mul] at h
+      have : r' % 2 = 0 := by rw [← h, Nat.mul_assoc, Nat.mul_comm (2 ^ n), Nat.mul_assoc]; simp
+      omega
+    | succ n' =>
+      rw [pow_succ, pow_succ, Nat.mul_comm (2 ^ n), Nat.mul_comm (2 ^ n'), Nat.mul_assoc,
+        Nat.mul_assoc] at h
+      have := ih n' (Nat.eq_of_mul_eq_mul_left (by omega) h)
+      exact ⟨by omega, this.2⟩
+
+theorem twoVal_spec (fuel m : Nat) (hm : m ≠ 0) (hf : m < 2 ^ fuel) :
+    ∃ r, r % 2 = 1 ∧ m = 2 ^ (twoVal fuel m) * r := by
+  induction fuel generalizing m with
+  | zero => simp at hf; omega
+  | succ f ih =>
+    simp only [twoVal]
+    by_cases h : m % 2 = 1
+    · have : (m % 2 == 0 && m != 0) = false := by simp; omega
+      rw [this]; exact ⟨m, h, by simp⟩
+    · have : (m % 2 == 0 && m != 0) = true := by simp; omega
+      rw [this]
+      simp only [if_true]
+      have h2 : m / 2 ≠ 0 := by omega
+      have h3 : m / 2 < 2 ^ f := by rw [pow_succ] at hf; omega
+      obtain ⟨r, e2, e3⟩ := ih (m / 2) h2 h3
+      refine ⟨r, e2, ?_⟩
+      rw [Nat.add_comm, pow_succ, Nat.mul_assoc, Nat.mul_comm 2 r, ← Nat.mul_assoc, ← e3]
+      omega
+
+theorem twoVal_unique (p s r : Nat) (hp : 2 ≤ p) (hr : r % 2 = 1) (h : p - 1 = 2 ^ s * r) :
+    s = twoVal p (p - 1) ∧ r = (p - 1) / 2 ^ twoVal p (p - 1) := by
+  have hf : p - 1 < 2 ^ p := by
+    have : p < 2 ^ p := Nat.lt_pow_self (by omega)
+    omega
+  obtain ⟨r', e1, e2⟩ := twoVal_spec p (p - 1) (by omega) hf
+  have := two_pow_odd_unique s _ r r' hr e1 (by rw [← h, ← e2])
+  refine ⟨this.1, ?_⟩
+  rw [this.2]
+  exact (Nat.div_eq_of_eq_mul_right (Nat.pow_pos (by omega)) e2).symm
+
+/-! ### modpow -/
+
+/-- value of a most-significant-first bit string -/
+def valBE : List Bool → Nat
+  | [] => 0
+  | b :: bs => (if b then 2 ^ bs.length else 0) + valBE bs
+
+theorem modPowBits_spec (m b : Nat) (bits : List Bool) (a : Nat) :
+    modPowBits m b bits (a % m) = (a ^ (2 ^ bits.length) * b ^ valBE bits) % m := by
+  induction bits generalizing a with
+  | nil => simp [modPowBits, valBE]
+  | cons bit bits ih =>
+    simp only [modPowBits]
+    have hsq : (a % m * (a % m)) % m = (a * a) % m := (Nat.mul_mod a a m).symm
+    cases bit with
+    | true =>
+      simp only [if_true]
+      rw [hsq, Nat.mod_mul_mod, ih]
+      simp only [valBE, if_true, List.length_cons]
+      congr 1
+      rw [pow_succ 2, pow_add, mul_pow, mul_pow]
+      ring
+    | false =>
+      simp only [Bool.false_eq_true, if_false]
+      rw [hsq, ih]
+      simp only [valBE, Bool.false_eq_true, if_false, List.length_cons, Nat.zero_add]
+      congr 2
+      rw [pow_succ 2, pow_mul, Nat.pow_two, mul_pow]
+
+theorem valBE_snoc (l : List Bool) (b : Bool) :
+    valBE (l ++ [b]) = 2 * valBE l + (if b then 1 else 0) := by
+  induction l with
+  | nil => cases b <;> simp [valBE]
+  | cons x xs ih =>
+    simp only [List.cons_append, valBE, ih, List.length_append, List.length_cons, List.length_nil]
+    cases x
+    · simp
+    · simp [pow_succ]; ring
+
+theorem valBE_reverse (l : List Bool) : valBE l.reverse = bitsToNat l := by
+  induction l with
+  | nil => rfl
+  | cons x xs ih =>
+    rw [List.reverse_cons, valBE_snoc, ih, bitsToNat]; omega
+
+theorem natBitsLE_spec (fuel n : Nat) (h : n ≤ fuel) : bitsToNat (natBitsLE fuel n) = n := by
+  induction fuel generalizing n with
+  | zero => have : n = 0 := by omega
+            subst this; rfl
+  | succ f ih =>
+    simp only [natBitsLE]
+    by_cases hn : n = 0
+    · subst hn; rfl
+    · rw [if_neg hn]
+      simp only [bitsToNat]
+      rw [ih (n / 2) (by omega)]
+      by_cases h2 : n % 2 = 1
+      · simp [h2]; omega
+      · simp [h2]; omega
+
+/-- `BigUint::modpow` as modelled is modular exponentiation -/
+theorem modPow_spec (b e m : Nat) : modPow b e m = b ^ e % m := by
+  unfold modPow
+  rw [modPowBits_spec, valBE_reverse, natBitsLE_spec e e (Nat.le_refl _)]
+  simp only [Nat.one_pow, Nat.one_mul]
+  exact (Nat.pow_mod b e m).symm
+
+/-! ### `two_adic_valuation` -/
+
+theorem head_parity (e : List Nat) (he : WF e) : e.headD 0 % 2 = value e % 2 := by
+  rw [headD_eq e he]
+  exact Nat.mod_mod_of_dvd _ (by unfold B; norm_num)
+
+theorem twoAdicLoop_spec (fuel : Nat) (e : List Nat) (acc : Nat) (he : WF e) (h0 : value e ≠ 0)
+    (hf : value e < 2 ^ fuel) :
+    ∃ s r, twoAdicLoop fuel e acc = some (acc + s) ∧ r % 2 = 1 ∧ value e = 2 ^ s * r := by
+  induction fuel generalizing e acc with
+  | zero => simp at hf; omega
+  | succ f ih =>
+    simp only [twoAdicLoop]
+    rw [head_parity e he]
+    by_cases h : value e % 2 = 1
+    · exact ⟨0, value e, by simp [h], h, by simp⟩
+    · have hv := div2_value e
+      have h2 : value (div2 e) ≠ 0 := by rw [hv]; omega
+      have h3 : value (div2 e) < 2 ^ f := by rw [hv]; rw [pow_succ] at hf; omega
+      obtain ⟨s, r, e1, e2, e3⟩ := ih (div2 e) (acc + 1) (div2_wf e he) h2 h3
+      refine ⟨s + 1, r, ?_, e2, ?_⟩
+      · have : (value e % 2 == 0) = true := by simp; omega
+        rw [this]; simp only [if_true]
+        rw [e1]; congr 1; omega
+      · rw [hv] at e3
+        rw [pow_succ, Nat.mul_assoc, Nat.mul_comm 2 r, ← Nat.mul_assoc, ← e3]
+        omega
+
+theorem twoAdicLoop_zero (fuel : Nat) (e : List Nat) (acc : Nat) (he : WF e) (h0 : value e = 0) :
+    twoAdicLoop fuel e acc = none := by
+  induction fuel generalizing e acc with
+  | zero => rfl
+  | succ f ih =>
+    simp only [twoAdicLoop]
+    rw [head_parity e he, h0]
+    simp only [Nat.zero_mod, beq_self_eq_true, if_true]
+    exact ih _ _ (div2_wf e he) (by rw [div2_value, h0])
+
+theorem twoAdicValuation_spec (N p : Nat) (hN : 0 < N) (hodd : p % 2 = 1) (h3 : 3 ≤ p)
+    (hlt : p < B ^ N) :
+    ∃ s r, twoAdicValuation (toLimbs N p) = .ok s ∧ r % 2 = 1 ∧ p - 1 = 2 ^ s * r := by
+  obtain ⟨n, rfl⟩ : ∃ n, N = n + 1 := ⟨N - 1, by omega⟩
+  have hB2 : B % 2 = 0 := by unfold B; norm_num
+  have ha0 : (p % B) % 2 = 1 := by rw [Nat.mod_mod_of_dvd _ (by unfold B; norm_num)]; exact hodd
+  have hwf := toLimbs_wf (n + 1) p
+  have hval := toLimbs_value (n + 1) p
+  rw [Nat.mod_eq_of_lt hlt] at hval
+  simp only [toLimbs] at hwf hval ⊢
+  have ⟨w1, w2⟩ := WF_cons.mp hwf
+  have hwf' : WF ((p % B - 1) :: toLimbs n (p / B)) := WF_cons.mpr ⟨by omega, w2⟩
+  have hval' : value ((p % B - 1) :: toLimbs n (p / B)) = p - 1 := by
+    simp only [value] at hval ⊢; omega
+  have hfuel : value ((p % B - 1) :: toLimbs n (p / B)) < 2 ^ (64 * (p % B :: toLimbs n (p / B)).length + 1) := by
+    rw [hval']
+    simp only [List.length_cons, toLimbs_length]
+    rw [pow_succ, ← B_pow_eq]; omega
+  obtain ⟨s, r, e1, e2, e3⟩ := twoAdicLoop_spec _ _ 0 hwf' (by rw [hval']; omega) hfuel
+  refine ⟨s, r, ?_, e2, by rw [← hval']; exact e3⟩
+  unfold twoAdicValuation
+  simp only
+  rw [if_neg (by simp [ha0]), e1]
+  simp
+
+theorem twoAdicValuation_even (N p : Nat) (hN : 0 < N) (heven : p % 2 = 0) :
+    twoAdicValuation (toLimbs N p) = .panic := by
+  obtain ⟨n, rfl⟩ : ∃ n, N = n + 1 := ⟨N - 1, by omega⟩
+  have ha0 : (p % B) % 2 = 0 := by rw [Nat.mod_mod_of_dvd _ (by unfold B; norm_num)]; exact heven
+  simp only [toLimbs, twoAdicValuation]
+  rw [if_pos (by simp [ha0])]
+
+theorem twoAdicValuation_one (N : Nat) (hN : 0 < N) :
+    twoAdicValuation (toLimbs N 1) = .diverge := by
+  obtain ⟨n, rfl⟩ : ∃ n, N = n + 1 := ⟨N - 1, by omega⟩
+  have hB : 1 % B = 1 := Nat.mod_eq_of_lt B_gt_one
+  have hd : 1 / B = 0 := Nat.div_eq_of_lt B_gt_one
+  simp only [toLimbs, twoAdicValuation, hB, hd]
+  have hz : value (toLimbs n 0) = 0 := by rw [toLimbs_value]; simp
+  rw [if_neg (by simp), twoAdicLoop_zero _ _ _ (WF_cons.mpr ⟨B_pos, toLimbs_wf _ _⟩)
+    (by simp [value, hz])]
+
+/-! ## 9. the whole derive pipeline -/
+
+/-- an odd number `≥ 3` is not a power of `2^64` -/
+theorem odd_ne_pow (p : Nat) (hodd : p % 2 = 1) : ∀ k, 1 ≤ k → p ≠ B ^ k := by
+  intro k hk e
+  have : B ^ k % 2 = 0 := by
+    obtain ⟨j, rfl⟩ : ∃ j, k = j + 1 := ⟨k - 1, by omega⟩
+    rw [pow_succ]; unfold B; simp [Nat.mul_mod]
+  omega
+
+theorem montConfigHelper_spec (p g : Nat) (hodd : p % 2 = 1) (h3 : 3 ≤ p) :
+    ∃ d t s, montConfigHelper p g none none = .ok d ∧
+      t % 2 = 1 ∧ p - 1 = 2 ^ s * t ∧
+      d.limbs = (bitLength p + 63) / 64 ∧ d.modulusLimbs = toLimbs ((bitLength p + 63) / 64) p ∧
+      d.generator = decimal g ∧ d.root = decimal (g ^ t % p) ∧ d.large = none := by
+  obtain ⟨t, s, e1, e2, e3⟩ := macroTrace_spec p (by omega)
+  have hN := macroLimbCount_eq p (by omega) (odd_ne_pow p hodd)
+  have hL := hexLimbs_eq p (by omega)
+  have hlen : (toLimbs ((bitLength p + 63) / 64) p).length = (bitLength p + 63) / 64 :=
+    toLimbs_length _ _
+  have hne : toLimbs ((bitLength p + 63) / 64) p ≠ [] := by
+    rw [← hL]; exact hexLimbs_ne_nil p
+  obtain ⟨top, htop⟩ : ∃ top, (toLimbs ((bitLength p + 63) / 64) p).getLast? = some top := by
+    cases h : (toLimbs ((bitLength p + 63) / 64) p).getLast? with
+    | none => exact absurd (List.getLast?_eq_none_iff.mp h) hne
+    | some top => exact ⟨top, rfl⟩
+  have hd : montConfigHelper p g none none = .ok
+      { limbs := (bitLength p + 63) / 64, modulusLimbs := toLimbs ((bitLength p + 63) / 64) p,
+        spare := top / 2 ^ 63 == 0,
+        noCarry := if ((bitLength p + 63) / 64 == 1) = true then decide (top < 2 ^ 63 - 1)
+          else decide (top < 2 ^ 63 - 1) &&
+            ((toLimbs ((bitLength p + 63) / 64) p).take ((bitLength p + 63) / 64 - 1)).any (· != B - 1),
+        generator := decimal g, root := decimal (g ^ t % p), large := none,
+        smallBase := none, smallPower := none } := by
+    unfold montConfigHelper
+    simp only [e1, strToLimbsU64_decimal, hL, htop, hN, hlen, modPow_spec, Option.map_none]
+    rw [if_neg (by omega)]
+  exact ⟨_, t, s, hd, e2, e3, rfl, rfl, rfl, rfl, rfl⟩
+
+/-- `MontFp!` on the decimal text of a natural number -/
+theorem montFp_decimal (fl : Bool) (N p : Nat) (hN : 0 < N) (hodd : p % 2 = 1) (h1 : 1 < p)
+    (hlt : p < B ^ N) (n : Nat) (hn : n < B ^ N) :
+    ∃ m, montFp (mkCfg fl N p) (decimal n) = .ok m ∧ Elem (mkCfg fl N p) p m ∧
+      value m = (n * B ^ N) % p := by
+  obtain ⟨m, a1, a2, a3⟩ := montFp_spec fl N p hN hodd h1 hlt (decimal n) n (litInt_decimal n)
+    (by simpa using hn)
+  refine ⟨m, a1, a2, ?_⟩
+  rw [← int_mont_pos] at a3
+  exact_mod_cast a3
+
+theorem derivedConsts_spec (d : Derived) (N p g rt : Nat) (hN : 0 < N) (hodd : p % 2 = 1)
+    (h3 : 3 ≤ p) (hlt : p < B ^ N) (hg : g < B ^ N) (hrt : rt < B ^ N)
+    (d1 : d.limbs = N) (d2 : d.modulusLimbs = toLimbs N p) (d3 : d.generator = decimal g)
+    (d4 : d.root = decimal rt) (d5 : d.large = none) :
+    ∃ k, derivedConsts d = .ok k ∧ k.n = N ∧ k.cfg = mkCfg true N p ∧ k.modulus = toLimbs N p ∧
+      (∃ r, r % 2 = 1 ∧ p - 1 = 2 ^ k.twoAdicity * r) ∧
+      Elem (mkCfg true N p) p k.generator ∧ value k.generator = (g * B ^ N) % p ∧
+      Elem (mkCfg true N p) p k.root ∧ value k.root = (rt * B ^ N) % p ∧ k.large = none := by
+  obtain ⟨s, r, t1, t2, t3⟩ := twoAdicValuation_spec N p hN hodd h3 hlt
+  obtain ⟨mg, g1, g2, g3⟩ := montFp_decimal true N p hN hodd (by omega) hlt g hg
+  obtain ⟨mr, r1, r2, r3⟩ := montFp_decimal true N p hN hodd (by omega) hlt rt hrt
+  have hv : value (toLimbs N p) = p := by rw [toLimbs_value, Nat.mod_eq_of_lt hlt]
+  have hd : derivedConsts d = .ok
+      { n := N, cfg := mkCfg true N p, modulus := toLimbs N p, twoAdicity := s, generator := mg,
+        root := mr, large := none } := by
+    unfold derivedConsts
+    rw [if_neg (by rw [d1, d2, toLimbs_length]; simp)]
+    simp only [d1, d2, d3, d4, d5, hv, t1, g1, r1]
+  exact ⟨_, hd, rfl, rfl, rfl, ⟨r, t2, t3⟩, g2, g3, r2, r3, rfl⟩
+
+/-! ## 10. assembled statements -/
+
+theorem strToLimbsU64_ok_iff (s : List Char) (pos : Bool) (ls : List Nat) :
+    strToLimbsU64 s = .ok (pos, ls) ↔
+      ∃ k, litInt s = some k ∧ pos = decide (0 ≤ k) ∧ ls = hexLimbs k.natAbs := by
+  rw [strToLimbsU64_eq]
+  cases litInt s with
+  | none => simp
+  | some k =>
+    simp only [Outcome.ok.injEq, Prod.mk.injEq, Option.some.injEq, exists_eq_left']
+    constructor
+    · rintro ⟨rfl, rfl⟩; exact ⟨rfl, rfl⟩
+    · rintro ⟨rfl, rfl⟩; exact ⟨rfl, rfl⟩
+
+theorem strToLimbsU64_panic_iff (s : List Char) : strToLimbsU64 s = .panic ↔ litInt s = none := by
+  rw [strToLimbsU64_eq]
+  cases litInt s <;> simp
+
+/-- an accepted string is parsed to the number it denotes -/
+theorem accepted_litInt (s : List Char) (r : Reading) (h : denote true s = some r)
+    (hacc : strToLimbsU64 s ≠ .panic) : litInt s = some r.value := by
+  cases hl : litInt s with
+  | none => exact absurd ((strToLimbsU64_panic_iff s).mpr hl) hacc
+  | some k =>
+    obtain ⟨r', e1, e2⟩ := litInt_denote s k hl
+    rw [h] at e1
+    cases e1
+    rw [e2]
+
+theorem pos_bits (p : Nat) (hp : p ≠ 0) :
+    0 < (bitLength p + 63) / 64 ∧ p < B ^ ((bitLength p + 63) / 64) := by
+  rw [bitLength_eq_bitLen]
+  have h1 : ¬ bitLen p ≤ 0 := by rw [bitLen_le_iff]; simpa using hp
+  refine ⟨by omega, ?_⟩
+  rw [B_pow_eq, ← bitLen_le_iff]
+  omega
+
+theorem montConfigDerive_decimal (p g : Nat) :
+    montConfigDerive (some (decimal p)) (some (decimal g)) none none = montConfigHelper p g none none := by
+  unfold montConfigDerive
+  simp only [bigUint_decimal]
+
+/-- the derive macro end to end, for an odd modulus `p ≥ 3` and a generator below `2^(64N)` -/
+theorem derive_pipeline (p g : Nat) (hodd : p % 2 = 1) (h3 : 3 ≤ p)
+    (hg : g < B ^ ((bitLength p + 63) / 64)) :
+    ∃ d k, montConfigDerive (some (decimal p)) (some (decimal g)) none none = .ok d ∧
+      derivedConsts d = .ok k ∧
+      k.n = (bitLength p + 63) / 64 ∧ k.cfg = mkCfg true ((bitLength p + 63) / 64) p ∧
+      k.modulus = toLimbs ((bitLength p + 63) / 64) p ∧
+      k.twoAdicity = twoVal p (p - 1) ∧
+      Elem k.cfg p k.generator ∧ value k.generator = (g * B ^ k.n) % p ∧
+      Elem k.cfg p k.root ∧
+      value k.root = (g ^ ((p - 1) / 2 ^ twoVal p (p - 1)) % p * B ^ k.n) % p ∧ k.large = none := by
+  obtain ⟨hN, hlt⟩ := pos_bits p (by omega)
+  obtain ⟨d, t, s, a1, a2, a3, a4, a5, a6, a7, a8⟩ := montConfigHelper_spec p g hodd h3
+  have hrt : g ^ t % p < B ^ ((bitLength p + 63) / 64) :=
+    Nat.lt_trans (Nat.mod_lt _ (by omega)) hlt
+  obtain ⟨k, b1, b2, b3, b4, ⟨r, b5, b6⟩, b7, b8, b9, b10, b11⟩ :=
+    derivedConsts_spec d _ p g _ hN hodd h3 hlt hg hrt a4 a5 a6 a7 a8
+  have ht := (twoVal_unique p s t (by omega) a2 a3).2
+  have hs := (twoVal_unique p _ r (by omega) b5 b6).1
+  refine ⟨d, k, by rw [montConfigDerive_decimal]; exact a1, b1, b2, b3, b4, hs, ?_, ?_, ?_, ?_, b11⟩
+  · rw [b3]; exact b7
+  · rw [b2]; exact b8
+  · rw [b3]; exact b9
+  · rw [b2, ← ht]; exact b10
+
+theorem exact_pow_of_odd (m s r : Nat) (hr : r % 2 = 1) (h : m = 2 ^ s * r) :
+    2 ^ s ∣ m ∧ ¬ 2 ^ (s + 1) ∣ m := by
+  refine ⟨⟨r, h⟩, ?_⟩
+  rintro ⟨c, hc⟩
+  rw [h, pow_succ, Nat.mul_assoc] at hc
+  have := Nat.eq_of_mul_eq_mul_left (Nat.pow_pos (by omega)) hc
+  omega
 
 end Ark.Lit
